@@ -283,7 +283,8 @@ def enum_pairs(ctx):
                     if ctx.mine(idx):
                         rng = ctx.rng("pair", tc0, tc1, oe, j)
                         yield {"tc0": tc0, "tc1": tc1, "oe": list(oe), "ctx_a": rng.getrandbits(51), "ctx_b": rng.getrandbits(51), "ctx_addr": rng.getrandbits(24),
-                               "t0": rng.choice([0, 1, 5]), "t1": rng.choice([0, 1, 5]), "ref": rng.choice([None, [52.0, 4.0], [-33.0, 151.0]])}
+                               "t0": rng.choice([0, 1, 5]), "t1": rng.choice([0, 1, 5]), "ref": rng.choice([None, [52.0, 4.0], [-33.0, 151.0]]),
+                               "stamps": rng.choice(["int", "int", "float", "datetime"])}
 
 
 def chk_pair(c, note):
@@ -294,6 +295,11 @@ def chk_pair(c, note):
         return frames.tohex(frames.df17(c["ctx_addr"], me), 112)
     m0, m1 = mk(c["tc0"], c["oe"][0], c["ctx_a"]), mk(c["tc1"], c["oe"][1], c["ctx_b"])
     ref = tuple(c["ref"]) if c["ref"] else ()
+    if c.get("stamps") == "datetime":  # the signature documents int | datetime time stamps
+        import datetime
+        c = dict(c, t0=datetime.datetime(2024, 1, 1) + datetime.timedelta(seconds=c["t0"]), t1=datetime.datetime(2024, 1, 1) + datetime.timedelta(seconds=c["t1"]))
+    elif c.get("stamps") == "float":
+        c = dict(c, t0=c["t0"] + 0.25, t1=c["t1"] + 0.25)
     got = call(A.position, m0, m1, c["t0"], c["t1"], *ref)
     t0, t1 = c["tc0"], c["tc1"]
     surf = t0 is not None and t1 is not None and 5 <= t0 <= 8 and 5 <= t1 <= 8
@@ -322,6 +328,63 @@ def chk_pair(c, note):
     return None
 
 
+# ------------------------------------------------------------------ valid register contents (random payloads almost never reach the per-register branches)
+def s_register():
+    from hypothesis import strategies as st
+    from checks import c12
+
+    @st.composite
+    def build(draw):
+        c = draw(c12.s_valid())
+        if draw(gen_bool()):  # clear one status bit together with its field: "not available" inside an otherwise valid register
+            from ref import registers as R
+            from ref import doc9871 as D
+            rules = R.STATUS.get(c["reg"])
+            if rules:
+                stb, sg, first, last = rules[draw(st.integers(0, len(rules) - 1))]
+                mb = D.place(D.place(c["mb"], stb, stb, 0), first, last, 0)
+                if sg:
+                    mb = D.place(mb, sg, sg, 0)
+                if mb:
+                    c["mb"] = mb
+        return {"msg": c12.mkmsg(c)}
+    return build()
+
+
+def gen_bool():
+    from hypothesis import strategies as st
+    return st.booleans()
+
+
+def chk_register(case, note):
+    msg = case["msg"]
+    n = 0
+    for nm in pms.commb.__all__:
+        shape = COMMB_SHAPES.get(nm, is_bool if nm.startswith("is") else onum)
+        p = expect("commb." + nm, call(getattr(pms.commb, nm), msg), "any_value", shape, msg)
+        n += 1
+        if p:
+            return p
+    for mr in (False, True):
+        p = expect("bds.infer", call(pms.bds.infer, msg, mr), "any_value", ostr, msg, (mr,))
+        if p:
+            return p
+    p = expect("bds.is50or60", call(pms.bds.is50or60, msg, 250.0, 90.0, 30000.0), "any_value", ostr, msg, (250.0, 90.0, 30000.0))
+    if p:
+        return p
+    buf = io.StringIO()
+    with contextlib.redirect_stdout(buf):
+        r = call(pms.tell, msg)
+    if r[0] != "ok":
+        return "tell(%s) raised %s: %s" % (msg, r[1], r[2])
+    if r[1] is not None or msg not in buf.getvalue():
+        return "tell(%s) returned %r / printed %r" % (msg, r[1], buf.getvalue()[:80])
+    note.evals = n + 4
+    note.cls("infer:" + str(pms.bds.infer(msg, True)))
+    note.nt(True)
+    return None
+
+
 # ------------------------------------------------------------------ coverage-guided campaign (thorough tier)
 def fuzz_decode(fdp):
     df = fdp.ConsumeIntInRange(0, 31)
@@ -346,6 +409,7 @@ def chk_atheris(case, note):
 
 LEGS = [
     Leg("atheris_cells", chk_atheris, enum=enum_atheris, shards_quick=1, shards_thorough=4, doc="libFuzzer campaign over the cell encoding with the cell oracle inside the target (thorough tier only)"),
+    Leg("register_frames", chk_register, strategy=s_register, quick=6000, thorough=200000, doc="valid Comm-B register contents (C12 generator), also with one field switched to 'not available': commb.*, infer, is50or60, tell are total"),
     Leg("cells", chk_cell, enum=enum_cells, exhaustive=True, doc="DF x TC x 3-bit subtype cell table x payloads x every public function"),
     Leg("pair_dispatch", chk_pair, enum=enum_pairs, exhaustive=False, doc="position() routes by the two type codes alone; same parity / mixed classes -> RuntimeError"),
 ]
